@@ -369,6 +369,10 @@ def cases(tier, seed):
             cs.append(('interest_names', {'shape': sh, 'signer': 'none', 'app': False, 'form': form, 'hint': True}))
         cs.append(('data_names', {'shape': [[1, 1]], 'signer': 'ecdsa', 'rmin': 70, 'form': form}))
         cs.append(('interest_names', {'shape': [[1, 1]], 'signer': 'digest', 'app': True, 'form': form, 'rmin': 70}))
+    # the appended ParametersSha256Digest component (34 bytes) itself moves the Name across the 253 boundary
+    for n in (range(212, 258) if quick else range(150, 300)):
+        for sk in ('none', 'ecdsa') if quick else ('none', 'ecdsa', 'digest', 'hmac'):
+            cs.append(('interest_names', {'shape': [['L', n]], 'signer': sk, 'app': True, 'rmin': 69}))
     # long names: the Name element itself (and a component) with a 3-byte length, alone and next to symbolic components
     for sh in ([['L', 260]], [[1, 1], ['L', 248]], [['L', 251], [1, 1]], [[1, 2], ['L', 300], [3, 1]]):
         for sk in ('none', 'ecdsa'):
